@@ -240,8 +240,9 @@ open Osmium.Generated Osmium.CxxSem Osmium.SrcTie
 theorem src_tie_id_order (a b : Int) :
     Src.ObjectComparisons.id_order.op_call_i64_i64 a b = idOrder a b := by
   unfold Src.ObjectComparisons.id_order.op_call_i64_i64 idOrder
+  rw [Bool.eq_iff_iff]
   by_cases h1 : b = 0 <;> by_cases h2 : a = 0 <;> by_cases h3 : a < 0 <;> by_cases h4 : b > 0 <;>
-    by_cases h5 : b < 0 <;> simp [*, CxxSem.lt, CxxSem.gt, CxxSem.eq] <;> omega
+    by_cases h5 : b < 0 <;> simp [*] <;> omega
 
 /-- `object_equal_type_id::operator()(const OSMObject&, const OSMObject&)` -/
 theorem src_tie_object_equal_type_id (l r : Src.Object.OSMObject)
